@@ -593,3 +593,15 @@ func FSEvalSymlinks(path string) (string, error) {
 
 // IsNotExist helper for workers.
 func IsNotExist(err error) bool { return errors.Is(err, os.ErrNotExist) }
+
+// LastRead returns, per absolute path, the bytes that the most recent read of the path delivered
+// (after content faults).
+func (d *Disk) LastRead() map[string]string {
+	d.mu.Lock()
+	defer d.mu.Unlock()
+	out := make(map[string]string, len(d.lastRead))
+	for k, v := range d.lastRead {
+		out[k] = v
+	}
+	return out
+}
